@@ -151,7 +151,7 @@ def c10(tier):
 
 def c11(tier):
     v = Verdict("C11", tier)
-    cases = tlc_cases(v, "intended/StmtDecoy.cfg")
+    cases = tlc_cases(v, "intended/StmtDecoyT.cfg" if tier == "thorough" else "intended/StmtDecoy.cfg")
     binary = common.build_breadlog()
     packs = make_packs(cases)
     # a comment on the last line of a file without a trailing newline, after real statements
